@@ -98,3 +98,13 @@ Proof.
   - reflexivity.
   - rewrite ppoly_eval_app, rev_app_distr, IHcdesc. unfold pevalR. simpl. ring.
 Qed.
+
+(* the range tuple (x_i, x_{i+1}, reversed coefficients, r_0 = x_i) stands for the PPoly piece on
+   [max(x_i, 0), x_{i+1}) -- with r_0 the real breakpoint, also when x_i < 0 -- and for 0 elsewhere *)
+Theorem bspline_range : forall cdesc xi xi1 r,
+  polyfun xi xi1 (rev cdesc) xi 1 r =
+  if Rle_dec (Rmax xi 0) r then if Rlt_dec r xi1 then ppoly_eval cdesc xi r else 0 else 0.
+Proof.
+  intros. unfold polyfun. destruct (Rle_dec _ _); auto. destruct (Rlt_dec _ _); auto.
+  symmetry. apply bspline_piece.
+Qed.
